@@ -20,15 +20,16 @@
 EXTENDS OpAbs
 
 CONSTANTS Kind,          \* [Ops -> {"single", "blocking"}]
-          FdOf,          \* [Ops -> Fds]  descriptor a single op reads from
+          Dir,           \* [Ops -> {"r", "w"}]  a single op waits for readability (recv) or writability (send)
+          FdOf,          \* [Ops -> Fds]  descriptor a single op works on
           Fds,
           Eager          \* schedule-generation variant (no effect here, kept for symmetry)
 
 VARIABLES phase,        \* [Ops -> "idle" | "held" | "gone"]
           rc,           \* [Ops -> Nat]
-          q,            \* [Fds -> Seq(Ops)]   FdQueue::read_queue
-          armed,        \* [Fds -> Ops \cup {"none"}]  key registered with the poller (one-shot)
-          avail,        \* [Fds -> BOOLEAN]    descriptor readable
+          q,            \* [Fds -> [r: Seq(Ops), w: Seq(Ops)]]   FdQueue::{read_queue, write_queue}
+          armed,        \* [Fds -> [r: BOOLEAN, w: BOOLEAN, key: Ops \cup {"none"}]]  one-shot registration (queue.event())
+          avail,        \* [Fds -> [r: BOOLEAN, w: BOOLEAN]]    descriptor readable / writable
           cflag, hasres, jobs, chan, token, drv,
           mon, last
 
@@ -42,21 +43,35 @@ EF(ev, o, f) == [ev |-> ev, op |-> o, a |-> 0, fd |-> f]
 FreeEv(o) == <<E("free", o), E("hbufdrop", o)>>
 DecEvents(r, o) == IF r[o] = 1 THEN FreeEv(o) ELSE <<>>
 
+Remove(s, o) == SelectSeq(s, LAMBDA x : x # o)
+Front(s) == IF s = <<>> THEN None ELSE Head(s)
+NoArm == [r |-> FALSE, w |-> FALSE, key |-> None]
+\* FdQueue::event(): readable iff a reader is queued, writable iff a writer is queued; the key is the
+\* write front if there is one, else the read front
+EventOf(qq) == [r |-> qq.r # <<>>, w |-> qq.w # <<>>,
+                key |-> IF qq.w # <<>> THEN Head(qq.w) ELSE IF qq.r # <<>> THEN Head(qq.r) ELSE None]
+PushQ(qq, o) == IF Dir[o] = "r" THEN [qq EXCEPT !.r = Append(@, o)] ELSE [qq EXCEPT !.w = Append(@, o)]
+RemQ(qq, o) == [r |-> Remove(qq.r, o), w |-> Remove(qq.w, o)]
+InQ(qq, o) == (\E i \in 1..Len(qq.r) : qq.r[i] = o) \/ (\E i \in 1..Len(qq.w) : qq.w[i] = o)
+EmptyQ(qq) == qq.r = <<>> /\ qq.w = <<>>
+
 Init == /\ phase = [o \in Ops |-> "idle"] /\ rc = [o \in Ops |-> 0]
-        /\ q = [f \in Fds |-> <<>>] /\ armed = [f \in Fds |-> None] /\ avail = [f \in Fds |-> FALSE]
+        /\ q = [f \in Fds |-> [r |-> <<>>, w |-> <<>>]]
+        /\ armed = [f \in Fds |-> NoArm]
+        \* descriptors that have a writer start with a full send buffer (the harness fills it)
+        /\ avail = [f \in Fds |-> [r |-> FALSE, w |-> FALSE]]
         /\ cflag = [o \in Ops |-> FALSE] /\ hasres = [o \in Ops |-> FALSE]
         /\ jobs = {} /\ chan = <<>> /\ token = {} /\ drv = "live" /\ mon = MonInit /\ last = <<>>
 
-Front(s) == IF s = <<>> THEN None ELSE Head(s)
-Remove(s, o) == SelectSeq(s, LAMBDA x : x # o)
 
 \* ---- submitter -------------------------------------------------------------------------
 Push(o) ==
   /\ drv = "live" /\ phase[o] = "idle" /\ Kind[o] = "single"
-  /\ ~avail[FdOf[o]]              \* the harness submits on an empty pipe (pre_submit always waits anyway)
   /\ LET f == FdOf[o] IN
-       /\ q' = [q EXCEPT ![f] = Append(@, o)]
-       /\ armed' = [armed EXCEPT ![f] = Front(Append(q[f], o))]
+       \* the harness submits a recv on a socket without data and a send on a socket whose buffer is full
+       /\ (IF Dir[o] = "r" THEN ~avail[f].r ELSE ~avail[f].w)
+       /\ q' = [q EXCEPT ![f] = PushQ(@, o)]
+       /\ armed' = [armed EXCEPT ![f] = EventOf(PushQ(q[f], o))]
        /\ Emit(<<E("alloc", o), EF("psubmit", o, f), E("hsub", o)>>)
   /\ phase' = [phase EXCEPT ![o] = "held"]
   /\ rc' = [rc EXCEPT ![o] = 2]
@@ -85,22 +100,28 @@ ChanFold(c, r, hr, evs) ==
        ChanFold(Tail(c), [r EXCEPT ![o] = @ - 1], [hr EXCEPT ![o] = TRUE],
                 evs \o <<E("result", o)>> \o DecEvents(r, o))
 
-\* readiness events of one batch, processed in some order (the set of ready armed fds)
-ReadyFds == {f \in Fds : armed[f] # None /\ avail[f]}
+\* readiness events of one batch, processed in some order: a descriptor produces an event when a
+\* registered interest is ready
+Ready(f) == (armed[f].r /\ avail[f].r) \/ (armed[f].w /\ avail[f].w)
+ReadyFds == {f \in Fds : Ready(f)}
 
 RECURSIVE EventFold(_, _, _, _, _, _, _)
 EventFold(fs, r, hr, qq, ar, av, evs) ==
   IF fs = <<>> THEN <<r, hr, qq, ar, av, evs>>
   ELSE LET f == Head(fs)
-           k == ar[f]                 \* the key the event carries (dereferenced)
-           p == Head(qq[f])           \* the front of the queue is what gets popped and operated
-           nq == Tail(qq[f])
+           k == ar[f].key                 \* the key the event carries (dereferenced)
+           evR == ar[f].r /\ av[f].r       \* event.readable
+           \* FdQueue::pop_interest: a readable event pops the read front, otherwise a writable one the write front
+           isR == evR /\ qq[f].r # <<>>
+           p == IF isR THEN Head(qq[f].r) ELSE Head(qq[f].w)
+           nq == IF isR THEN [qq[f] EXCEPT !.r = Tail(@)] ELSE [qq[f] EXCEPT !.w = Tail(@)]
        IN EventFold(Tail(fs),
                     [r EXCEPT ![p] = @ - 1],
                     [hr EXCEPT ![p] = TRUE],
                     [qq EXCEPT ![f] = nq],
-                    [ar EXCEPT ![f] = Front(nq)],
-                    [av EXCEPT ![f] = FALSE],       \* the read takes everything that is there
+                    [ar EXCEPT ![f] = EventOf(nq)],                 \* renew with what is still queued
+                    \* a recv takes everything that is there; a send leaves the socket writable
+                    [av EXCEPT ![f] = IF isR THEN [@ EXCEPT !.r = FALSE] ELSE @],
                     evs \o <<E("pevent", k), EF("ppop", p, f), E("result", p)>> \o DecEvents(r, p))
 
 SeqOfSet(S) == CHOOSE s \in [1..Cardinality(S) -> S] : \A i, j \in 1..Cardinality(S) : i # j => s[i] # s[j]
@@ -132,12 +153,12 @@ DrvCancel(o, r) ==
   IF Kind[o] = "blocking"
     THEN [r |-> r, q |-> q, armed |-> armed, chan |-> chan, evs |-> <<>>]       \* op_type() = None
     ELSE LET f == FdOf[o]
-             inq == \E i \in 1..Len(q[f]) : q[f][i] = o
-             nq == Remove(q[f], o)
+             inq == InQ(q[f], o)
+             nq == RemQ(q[f], o)
          IN [r |-> IF inq THEN r ELSE [r EXCEPT ![o] = @ + 1],    \* queue ref dropped, channel entry holds a clone
              q |-> [q EXCEPT ![f] = nq],
-             \* remove_one: the queue exists => renew with the new front; no queue => nothing
-             armed |-> IF q[f] = <<>> THEN armed ELSE [armed EXCEPT ![f] = Front(nq)],
+             \* remove_one: the queue exists => renew with what is left; no queue => nothing
+             armed |-> IF EmptyQ(q[f]) THEN armed ELSE [armed EXCEPT ![f] = EventOf(nq)],
              chan |-> Append(chan, o),
              evs |-> <<EF("pcancel", o, f)>>]
 
@@ -188,9 +209,14 @@ KeyDrop(o) ==
   /\ UNCHANGED <<q, armed, avail, cflag, hasres, jobs, chan, token, drv>>
 
 \* ---- environment ------------------------------------------------------------------------
-Feed(f) ==
-  /\ drv = "live" /\ ~avail[f]
-  /\ avail' = [avail EXCEPT ![f] = TRUE]
+Feed(f) ==      \* the peer sends: the descriptor becomes readable
+  /\ drv = "live" /\ ~avail[f].r
+  /\ avail' = [avail EXCEPT ![f].r = TRUE]
+  /\ UNCHANGED <<phase, rc, q, armed, cflag, hasres, jobs, chan, token, drv, mon>> /\ last' = <<>>
+
+Drain(f) ==     \* the peer reads everything: the descriptor becomes writable
+  /\ drv = "live" /\ ~avail[f].w /\ \E o \in Ops : Kind[o] = "single" /\ Dir[o] = "w" /\ FdOf[o] = f
+  /\ avail' = [avail EXCEPT ![f].w = TRUE]
   /\ UNCHANGED <<phase, rc, q, armed, cflag, hasres, jobs, chan, token, drv, mon>> /\ last' = <<>>
 
 \* ---- Driver::drop: registry and channel go away -------------------------------------------
@@ -206,12 +232,12 @@ Concat(fs, qq) == IF fs = <<>> THEN <<>> ELSE qq[Head(fs)] \o Concat(Tail(fs), q
 DropDriver ==
   /\ drv = "live"
   /\ drv' = "gone"
-  /\ LET allq == Concat(SeqOfSet(Fds), q)
+  /\ LET allq == Concat(SeqOfSet(Fds), [f \in Fds |-> q[f].r \o q[f].w])
          keep == IF jobs = {} THEN chan ELSE <<>>     \* a pool thread still holds a sender: the channel survives
          f == DropFold(allq \o keep, rc, <<E("hdrvdrop", CHOOSE o \in Ops : TRUE), E("ringclosed", CHOOSE o \in Ops : TRUE)>>)
      IN /\ rc' = f[1] /\ Emit(f[2])
         /\ chan' = IF jobs = {} THEN <<>> ELSE chan
-  /\ q' = [f \in Fds |-> <<>>] /\ armed' = [f \in Fds |-> None]
+  /\ q' = [f \in Fds |-> [r |-> <<>>, w |-> <<>>]] /\ armed' = [f \in Fds |-> NoArm]
   /\ UNCHANGED <<phase, avail, cflag, hasres, jobs, token>>
 
 DropChan ==
@@ -229,7 +255,7 @@ End ==
 Next ==
   \/ \E o \in Ops : \/ Push(o) \/ PushBlocking(o) \/ PoolRun(o) \/ Pop(o) \/ Cancel(o)
                     \/ MakeToken(o) \/ FireToken(o) \/ KeyDrop(o)
-  \/ \E f \in Fds : Feed(f)
+  \/ \E f \in Fds : Feed(f) \/ Drain(f)
   \/ Poll \/ DropDriver \/ DropChan \/ End
 
 Spec == Init /\ [][Next]_vars
@@ -237,10 +263,12 @@ FairSpec == Spec /\ WF_vars(Poll) /\ \A o \in Ops : WF_vars(PoolRun(o))
 
 Safe == NoViol(mon)
 \* per-fd FIFO and arming discipline of the implementation
-ArmedIsFront == \A f \in Fds : drv = "live" => armed[f] = Front(q[f])
-QueuedAreAlive == \A f \in Fds : \A i \in 1..Len(q[f]) : rc[q[f][i]] >= 1
+ArmedIsFront == \A f \in Fds : drv = "live" => armed[f] = EventOf(q[f])
+QueuedAreAlive == \A f \in Fds : (\A i \in 1..Len(q[f].r) : rc[q[f].r[i]] >= 1) /\ (\A i \in 1..Len(q[f].w) : rc[q[f].w[i]] >= 1)
 \* C02 liveness (design level): a ready descriptor with a waiting head reader is eventually served
-Served == \A f \in Fds : (drv = "live" /\ avail[f] /\ q[f] # <<>>) ~> (~avail[f] \/ q[f] = <<>> \/ drv # "live")
+Served == \A f \in Fds :
+   /\ (drv = "live" /\ avail[f].r /\ q[f].r # <<>>) ~> (~avail[f].r \/ q[f].r = <<>> \/ drv # "live")
+   /\ (drv = "live" /\ avail[f].w /\ q[f].w # <<>>) ~> (q[f].w = <<>> \/ drv # "live")
 \* C05 liveness: a cancelled queued operation eventually gets its result
 CancelDelivered == \A o \in Ops : (drv = "live" /\ cflag[o] /\ rc[o] > 0 /\ ~hasres[o] /\ Kind[o] = "single")
                                      ~> (hasres[o] \/ rc[o] = 0 \/ drv # "live")
